@@ -35,11 +35,17 @@ def Row.insert (r : Row) (v : Var) (x : Val) : Row :=
 
 def Row.vars (r : Row) : List Var := r.map (·.1)
 
+/-- the compatibility test of `merge_rows`: every left entry agrees with the right row -/
+def compatB (l r : Row) : Bool :=
+  l.all (fun e => match Row.get r e.1 with | some y => e.2 == y | none => true)
+
+/-- the union computed by `merge_rows`: the left row, then the right entries that are new -/
+def unionRows (l r : Row) : Row :=
+  r.foldl (fun acc e => match Row.get acc e.1 with | some _ => acc | none => Row.insert acc e.1 e.2) l
+
 /-- `merge_rows`: `none` on a conflicting shared variable, else left ∪ (right entries not in left) -/
 def mergeRows (l r : Row) : Option Row :=
-  if l.all (fun (k, x) => match Row.get r k with | some y => x == y | none => true) then
-    some (r.foldl (fun acc (k, y) => match Row.get acc k with | some _ => acc | none => Row.insert acc k y) l)
-  else none
+  if compatB l r then some (unionRows l r) else none
 
 /-- `join_solution_sequences` (nested loop; order: left-major) -/
 def nlJoin (l r : List Row) : List Row :=
